@@ -245,7 +245,7 @@ structure Env where
   /-- `persistent_processes`: processes started through `start_process` (the REPL's process, the main
   process of `quiv run`): a successful result of such a process means "sleeping until resumed" -/
   persistent : List Pid := []
-  /-- `exited_processes` (repair of F10): processes whose `ProcessExited` has been handled. They own
+  /-- `exited_processes` (repair of F10, /repo 5cb2956): processes whose `ProcessExited` has been handled. They own
   nothing: what they owned was closed then, what is handed to them later is closed on arrival. -/
   exited : List Pid := []
   backend : Backend := {}
